@@ -209,7 +209,7 @@ def main(argv=None):
         "violations": len(violations),
         "verdict": "violated" if rc == 1 else ("inconclusive" if inconclusive else "held-on-observed"),
     }
-    if not args.only and not args.max_cases:
+    if not args.only and not args.max_cases and not os.environ.get("VERIF_NO_EVIDENCE"):
         os.makedirs(os.path.join(VERIF, "evidence"), exist_ok=True)
         with open(os.path.join(VERIF, "evidence", pid + ".json"), "w") as fh:
             json.dump(ev, fh, indent=1, sort_keys=True)
